@@ -23,6 +23,11 @@ def _add_source(eng, delay, cb):
     sid = z3.Int(fresh_name('srcid'))
     armed = g['src_armed']
     eng.assume(z3.And(sid > 0, z3.Not(z3.Select(armed.z, sid))))
+    old = getattr(eng, 'old', None)
+    if old is not None and 'src_armed' in old.ghost:
+        # GLib source ids grow: a new source never gets the id of one that was armed when this handler began
+        # (even if that one has been removed since)
+        eng.assume(z3.Not(z3.Select(old.ghost['src_armed'].z, sid)))
     g['src_armed'] = V(armed.t, z3.Store(armed.z, sid, True))
     d = g['src_delay']
     g['src_delay'] = V(d.t, d.t.mk(z3.Store(d.t.dom(d.z), sid, True), z3.Store(d.t.map(d.z), sid, delay)))
@@ -73,7 +78,12 @@ def dbus_identity(eng, args, kwargs):
     return args[0] if args else mk_str_const('')
 
 
+def get_logger(eng, args, kwargs):
+    return Py('ext', 'logging.Logger')
+
+
 MISC = {
+    'logging.getLogger': get_logger,
     'datetime.datetime.now': dt_now,
     'binascii.hexlify': hexlify,
     'dbus.String': dbus_identity,
